@@ -25,7 +25,9 @@ class C08(PropBase):
                 out.append(Case('find_list', [items, q], 'find', {}))
                 if rng.random() < 0.3 and items:
                     out.append(Case('match', [['s', rng.choice(items)], q], 'match', {}))
-            out.append(Case('find_list_sids', [items, ls.search_from(rng, v, items)], 'find_as_sid', {}))
+            # as_sid=True re-reads every found entry with Sid(): the entries are Sid strings there, not uris (':' / '?')
+            items_s = [e for e in items if ':' not in e and '?' not in e]
+            out.append(Case('find_list_sids', [items_s, ls.search_from(rng, v, items_s)], 'find_as_sid', {}))
             # an alias name used as an ordinary (open) value in last position: the last segment still expands
             if v.alias and rng.random() < 0.5:
                 al = rng.choice(list(v.alias))
